@@ -45,7 +45,8 @@ def run_spec(ctx, cfg, what, shards=None, expect_violation=False):
     shards = shards or max(1, min(PROCS, 4))
 
     def one(k):
-        return tlc.run("Classify", cfg, workers=1, env={"NSHARDS": str(shards), "SHARD": str(k)}, deadlock=False, timeout=1500)
+        return tlc.run("Classify", cfg, workers=1, env={"NSHARDS": str(shards), "SHARD": str(k),
+                                                                "JAVA_TOOL_OPTIONS": "-XX:ParallelGCThreads=2 -XX:CICompilerCount=2"}, deadlock=False, timeout=1500)
 
     with ThreadPoolExecutor(shards) as ex:
         results = list(ex.map(one, range(shards)))
